@@ -1,5 +1,6 @@
 """C02 - every operation completes exactly once, with its own result."""
 import drvcheck
+from checks import x03
 
 LEVEL = "model_checking"
 TITLE = "Every operation completes exactly once, with its own result"
@@ -7,7 +8,10 @@ TEXT = ("The driver model composed with the OpAbs monitor is checked exhaustivel
         "delivery, completions only for operations the OS holds, nothing lost on SQ overflow); TLC-generated schedules "
         "with harness-chosen completion orders are replayed on the real Proactor: per step the hook events must equal the "
         "model's, delivered results are compared with what the harness made the OS do (distinct data per operation), and "
-        "after each schedule every operation whose awaited event happened must have been delivered.")
+        "after each schedule every operation whose awaited event happened must have been delivered. For a runtime driven "
+        "by an external event loop the schedules of CompatLoop.tla that pass through the two windows in which the driver "
+        "used to strand a finished completion (thread-pool entry invisible to flush(); completion queue not drained after "
+        "poll_blocking) are steered through the real compio-compat loop: execute() must return.")
 NOTE = ("Bounds as C01. Result identity is checked through distinct byte patterns per operation and the identity of the "
         "returned buffer object; completion delivery is checked under a polling watchdog (400 ms of polling, no wall-clock "
         "ordering). io_uring driver; polling driver where registered in the evidence.")
@@ -16,4 +20,11 @@ DESIGN_REF = "3/C02"
 
 
 def run(run, tier, replay):
+    if replay and x03.is_compat_replay(replay):
+        x03.compat_leg(run, tier, replay, prefix="compat_")
+        return
     drvcheck.run_all(run, tier, "C02", replay)
+    if not replay:
+        # outcomes left undelivered although the OS has finished them, externally driven runtime (the whole
+        # compio-compat leg belongs to ./check C03; this is its stranded-completion share)
+        x03.stranded_leg(run, tier)
